@@ -53,7 +53,7 @@ func cmdLive(args []string) int {
 	admin := []string{"10.0.0.1"}
 
 	// (a) advancing histories over the first 8 accounts
-	small := &Fixture{Store: fx.Store, Accounts: fx.Accounts[:8], Fetcher: fx.Fetcher}
+	small := &Fixture{Stores: fx.Stores, Accounts: fx.Accounts[:8], Fetcher: fx.Fetcher}
 	for h := 0; h < nHist; h++ {
 		inst, err := run.newInstance(admin)
 		if err != nil {
